@@ -38,16 +38,71 @@ RE = z3.Function("Re", z3.RealSort(), z3.RealSort())  # real part of an abstract
 _SIG = {}
 
 
+def _free_consts(t, exclude):
+    """Uninterpreted constants (arity 0) occurring in `t`, in order of first occurrence, without `exclude`."""
+    out, seen, stack = [], set(), [t]
+    ex = exclude.get_id()
+    while stack:
+        e = stack.pop()
+        i = e.get_id()
+        if i in seen:
+            continue
+        seen.add(i)
+        if z3.is_app(e):
+            if e.num_args() == 0 and e.decl().kind() == z3.Z3_OP_UNINTERPRETED and i != ex:
+                out.append(e)
+            stack.extend(reversed(e.children()))
+    return out
+
+
+def _ctx_simplify(b):
+    """Resolve conditionals whose condition is decided by the current path condition (e.g. the clipping of a slice
+    bound that is known to be in range), then re-normalise."""
+    ctx = V.cur()
+    for _ in range(4):
+        ites, seen, stack = [], set(), [b]
+        while stack:
+            e = stack.pop()
+            i = e.get_id()
+            if i in seen:
+                continue
+            seen.add(i)
+            if z3.is_app(e):
+                if z3.is_app_of(e, z3.Z3_OP_ITE):
+                    ites.append(e)
+                stack.extend(e.children())
+        subs = []
+        for e in ites:
+            c = e.arg(0)
+            if ctx.entails(c):
+                subs.append((e, e.arg(1)))
+            elif ctx.entails(z3.Not(c)):
+                subs.append((e, e.arg(2)))
+        if not subs:
+            break
+        b = z3.simplify(z3.substitute(b, *subs))
+    return b
+
+
 def sigma_n(n, body_fn, level=0):
-    """Σ_{t=0}^{n-1} body_fn(t) with the summand simplified (canonical polynomial form) before abstraction."""
+    """Σ_{t=0}^{n-1} body_fn(t) as the term  Sigma<summand>(n, free variables of the summand).
+
+    The summand is normalised (z3 simplify: canonical polynomial form) with the bound variable named by nesting level; one
+    uninterpreted function symbol per distinct normalised summand, applied to the upper limit and the summand's free
+    variables.  Equal summands therefore give equal terms (Σ-congruence); different summands give unrelated symbols, so a
+    claimed equality of different sums is refuted with a model instead of timing out on array extensionality."""
     t = z3.Int(f"t!sig{level}")
     b = V._num(lift(body_fn(t)))
     if z3.is_int(b):
         b = z3.ToReal(b)
-    b = z3.simplify(b)
-    if "f" not in _SIG:
-        _SIG["f"] = z3.Function("SigmaR", z3.IntSort(), z3.ArraySort(z3.IntSort(), z3.RealSort()), z3.RealSort())
-    return Sym(_SIG["f"](z3.simplify(lift(n)), z3.Lambda([t], b)))
+    b = _ctx_simplify(z3.simplify(b))
+    fv = sorted(_free_consts(b, t), key=lambda e: e.decl().name())
+    key = (b.sexpr(), tuple(e.decl().name() for e in fv))
+    f = _SIG.get(key)
+    if f is None:
+        f = z3.Function(f"Sigma#{len(_SIG)}", z3.IntSort(), *[e.sort() for e in fv], z3.RealSort())
+        _SIG[key] = f
+    return Sym(f(z3.simplify(lift(n)), *fv))
 
 
 def sum_axes(arr, axes, expand_upto=0):
